@@ -110,3 +110,28 @@ Proof.
     cbn [conforms] in Hc. inversion Hs as [| | | | | | | | | | | | | | | | | | | | | | | | | | | | | |? ? s' ? ? Hget Hsp]; subst.
     rewrite Hget in Hc. cbn [audit]. rewrite Hget. apply (IH s' v _ bs Hsp Hc).
 Qed.
+
+(* The converse of spec_audits is FALSE of the faithful model, for a reason that has nothing to do with
+   blocks: the specification's variable-length integers are minimal (vint), while the implementation's
+   decode_variable (avro/src/util.rs) - and therefore the model's dec_var, the decoder and this auditor -
+   also accept padded ("overlong") ones such as 80 00 for zero. *)
+Lemma vint_single : forall n a, vint n [a] -> a = n /\ n < 128.
+Proof.
+  intros n a H. remember [a] as l eqn:El. destruct H as [n Hn|n r Hge Hr].
+  - injection El as ->. split; [reflexivity|exact Hn].
+  - injection El as _ ->. inversion Hr.
+Qed.
+
+Lemma vint_no_padding : forall n a, vint n [a; 0] -> False.
+Proof.
+  intros n a H. remember [a; 0] as l eqn:El. destruct H as [n Hn|n r Hge Hr].
+  - discriminate El.
+  - injection El as _ ->. apply vint_single in Hr as [Hz _]. lia.
+Qed.
+
+Lemma spec_long_no_padding nmz ens v a : ~ spec nmz ens SLong v [a; 0].
+Proof.
+  intros Hs. remember SLong as s eqn:Es. remember [a; 0] as bs eqn:Eb.
+  destruct Hs; try discriminate Es.
+  match goal with H : slong _ _ |- _ => destruct H as [_ Hv] end. subst. exact (vint_no_padding _ _ Hv).
+Qed.
